@@ -31,6 +31,7 @@ type UnitSpec struct {
 	AppendDouble bool   `json:"append_double,omitempty"`
 	Reveal     bool     `json:"reveal,omitempty"`
 	RevealOnly []string `json:"reveal_only,omitempty"` // expand only these opaque spec functions (short names)
+	AssumeNoop []string `json:"assume_noop,omitempty"` // callees assumed (in this unit) to leave the modelled heap unchanged
 	Prune      bool     `json:"prune,omitempty"`    // path mode: solver-checked pruning of infeasible branches
 	Paths      bool     `json:"paths,omitempty"`    // path mode (bounded lemmas): fork at branches, never merge
 	Ints       string   `json:"ints,omitempty"`     // "math": Go's int is a mathematical integer in this unit
@@ -196,6 +197,12 @@ func RunProperty(id, tier string) int {
 		opt.Overflow = us.Overflow
 		opt.Paths = us.Paths
 		opt.Prune = us.Prune
+		if len(us.AssumeNoop) > 0 {
+			opt.AssumeNoop = map[string]bool{}
+			for _, q := range us.AssumeNoop {
+				opt.AssumeNoop[q] = true
+			}
+		}
 		opt.MaxRec = us.MaxRec
 		opt.AppendDouble = us.AppendDouble
 		if us.Ints == "math" && !us.Overflow {
